@@ -306,6 +306,23 @@ func RunC04(r *sim.Run) {
 			}
 			continue
 		}
+		// a request may reach the upstream a second time only the way net/http's own
+		// transport replays one: idempotent method, no body, the first connection died
+		// before any response; and a second copy is a faithful copy too
+		if len(obs) > 1 {
+			r.Checked("no_unfaithful_or_non_idempotent_replay")
+			replayable := len(q.Body) == 0 && (q.Method == "GET" || q.Method == "HEAD" || q.Method == "OPTIONS" || q.Method == "TRACE")
+			if !replayable {
+				r.Violate("non_idempotent_request_forwarded_twice", q.Method, "request %s (%s, body of %d bytes) reached the upstream %d times (second copy: body of %d bytes)", q.ID, q.Method, len(q.Body), len(obs), len(obs[1].Body))
+				return
+			}
+			for _, o2 := range obs[1:] {
+				if o2.Method != obs[0].Method || o2.Path != obs[0].Path || o2.RawQuery != obs[0].RawQuery || !bytes.Equal(o2.Body, obs[0].Body) {
+					r.Violate("replayed_copy_differs", "c04", "request %s reached the upstream again as %s %s?%s with %d body bytes (first copy: %s %s?%s, %d bytes)", q.ID, o2.Method, o2.Path, o2.RawQuery, len(o2.Body), obs[0].Method, obs[0].Path, obs[0].RawQuery, len(obs[0].Body))
+					return
+				}
+			}
+		}
 		if midStream[q.ID] {
 			if q.ReadErr == "" && bytes.Contains(q.RespBody, []byte("KubeGatewayInternalError")) {
 				r.Probe("observation_status_json_appended_to_started_response_cleanly_terminated")
